@@ -192,15 +192,48 @@ def run(chk, repo):
             rmap = {k.value: ast.literal_eval(v) for k, v in zip(n.keys, n.values)}
     ok = wsyms.get(1) == ['+'] and wsyms.get(-1) == ['-'] and rmap is not None and rmap.get('+') == 1 and rmap.get('-') == -1
     chk.ob('C11.e', 'strand symbols agree (+ <-> 1, - <-> -1)', wr.where, ok, f"writer {wsyms}, reader {rmap}", key='gtf.GtfIO::strand-symbols')
-    # is_protein_coding
-    wtxt = unparse(wr.node)
-    ok = "'true' if is_protein_coding is True else 'false'" in wtxt and 'is_protein_coding {is_protein_coding};' in wtxt
+    # is_protein_coding: the writer emits the text the model reader compares with ('true'), under the attribute name the GTF reader keeps
+    from sa import sem as _se
+    wchains = _se.block_chains(wr.node)
+    wparam = 'is_protein_coding'
+    ok = False
+    wdetail = 'no `is_protein_coding <value>;` attribute is written'
+    for st in ast.walk(wr.node):
+        if not (isinstance(st, ast.stmt) and _se.own_stmt(st)):
+            continue
+        for js in [x for x in ast.walk(st) if isinstance(x, ast.JoinedStr)]:
+            vals = js.values
+            for k in range(len(vals) - 1):
+                if isinstance(vals[k], ast.Constant) and str(vals[k].value).rstrip().endswith('is_protein_coding') and isinstance(vals[k + 1], ast.FormattedValue):
+                    tail = vals[k + 2].value if k + 2 < len(vals) and isinstance(vals[k + 2], ast.Constant) else ''
+                    v = _se.expand_names(wr.node, st, vals[k + 1].value, chains=wchains)
+                    wdetail = f"is_protein_coding is written as `{unparse(v)}`"
+                    if isinstance(v, ast.IfExp) and isinstance(v.body, ast.Constant) and isinstance(v.orelse, ast.Constant) and str(tail).startswith(';'):
+                        pos = {_se.lit(f'{wparam} is True'), _se.lit(f'{wparam} == True'), _se.lit(wparam)}
+                        neg = {_se.lit(f'{wparam} is False'), _se.lit(f'{wparam} is not True'), _se.lit(f'{wparam} != True'), _se.lit(wparam, False),
+                               _se.lit(f'{wparam} is True', False)}
+                        c = _se.conj_literals(v.test)
+                        if c and len(c) == 1:
+                            l = next(iter(c))
+                            if l in pos:
+                                ok = (v.body.value, v.orelse.value) == ('true', 'false')
+                            elif l in neg:
+                                ok = (v.body.value, v.orelse.value) == ('false', 'true')
+    # the model reader compares the kept attribute with 'true'
+    tam = repo.func('gtf.TranscriptAnnotationModel:TranscriptAnnotationModel.add_transcript_record') if 'gtf.TranscriptAnnotationModel:TranscriptAnnotationModel.add_transcript_record' in repo.functions else None
+    # the reader's keep-set: the collection the attribute keys are tested against
     keep = None
-    for n in walk_no_nested(rd.node):
-        if isinstance(n, ast.Assign) and unparse(n.targets[0]) == 'attributes_to_keep':
-            keep = ast.literal_eval(n.value)
+    for nd in ast.walk(rd.node):
+        if isinstance(nd, ast.Compare) and len(nd.ops) == 1 and isinstance(nd.ops[0], (ast.In, ast.NotIn)):
+            coll = nd.comparators[0]
+            if isinstance(coll, ast.Name):
+                stc = repo.enclosing_stmt(nd)
+                coll = _se.nearest_def(rd.node, stc, coll.id, _se.block_chains(rd.node)) or rd.module.constants.get(coll.id) or coll
+            if isinstance(coll, (ast.List, ast.Tuple, ast.Set)) and all(isinstance(e, ast.Constant) and isinstance(e.value, str) for e in coll.elts) \
+                    and any(e.value == 'gene_id' for e in coll.elts):
+                keep = [e.value for e in coll.elts]
     chk.ob('C11.e', "is_protein_coding written as true/false and kept by the reader", wr.where, ok and keep is not None and 'is_protein_coding' in keep,
-           'is_protein_coding attribute writer/reader disagree', key='gtf.GtfIO::is_protein_coding')
+           f"is_protein_coding attribute writer/reader disagree ({wdetail}; reader keeps {keep})", key='gtf.GtfIO::is_protein_coding')
     must_keep = {'gene_id', 'transcript_id', 'protein_id', 'gene_name', 'gene_type', 'gene_biotype', 'tag', 'is_protein_coding'}
     chk.ob('C11.e', 'reader keeps every attribute the models use', rd.where, keep is not None and must_keep <= set(keep),
            f"attributes dropped by the reader: {sorted(must_keep - set(keep or []))}", key=rd.qual + '::attributes_to_keep', fn=rd.qual)
